@@ -1,25 +1,25 @@
 /-
 C12 model, part 2 (core Lean only): `glue.core.state.VersionedDict` as a state machine.
 
-`Impl` mirrors the class literally (with the F16 repair applied, see `props.d/C12/fixes`):
+`Impl` mirrors the class literally (with the F-C12a repair applied, see `props.d/C12/fixes`):
 
     self._data = {}                         # item -> {version -> value}, both insertion ordered
 
     __setitem__((item, version), value):
         len(key) != 2                        -> ValueError
         version = int(version)               -> ValueError if not an integer
-        version < 1                          -> ValueError                       (F16 repair)
-        versions = self._data.get(item, {})                                     (F16 repair: no ghost key)
+        version < 1                          -> ValueError                       (F-C12a repair)
+        versions = self._data.get(item, {})                                     (F-C12a repair: no ghost key)
         version > 1 and version-1 not in versions -> KeyError
         version in versions                  -> KeyError
         self._data.setdefault(item, {})[version] = value
     get_version(key, None)    -> KeyError if key not in _data else vs[max(vs)]
-    get_version(key, version) -> _data[key][version] or KeyError               (F16 repair: no ghost key)
+    get_version(key, version) -> _data[key][version] or KeyError               (F-C12a repair: no ghost key)
     __getitem__(key)          -> KeyError if key not in _data else (vs[max(vs)], max(vs))
     __contains__, __len__, __delitem__ (always ValueError)
 
 `Orig.set` is the *unrepaired* `__setitem__` of the pinned tree (defaultdict, no `version < 1`
-test), kept for the `decide`d witness of F16.
+test), kept for the `decide`d witness of F-C12a.
 
 `Spec` is what the property demands: each key owns the list of the values of versions `1..n`;
 a set succeeds exactly for version `n+1`; nothing is ever overwritten; `getitem` returns version `n`.
